@@ -76,6 +76,8 @@ class SyncTasks(Tasks):
         super().__init__(*args, **kwargs)
         self._cancel_save = None
         self._stop_event = threading.Event()
+        self._poll_thread = None
+        self._follow_up_jobs = None
 
     def add_job(self, func, *args):
         """Add a job that should return a reply to be sent.
@@ -83,19 +85,36 @@ class SyncTasks(Tasks):
         A job is a tuple of function and optional args. Keyword arguments
         can be passed via use of functools.partial. The job should return a
         string that should be sent by the gateway protocol.
+
+        A job that is added by the job that the poll thread is running,
+        eg the commands for a node that just woke up, is run before
+        messages that were received and queued in the meantime.
         """
+        follow_up_jobs = self._follow_up_jobs
+        if (
+            follow_up_jobs is not None
+            and threading.current_thread() is self._poll_thread
+        ):
+            follow_up_jobs.append((func, args))
+            return
         self.queue.append((func, args))
 
     def start(self):
         """Start the connection to a transport."""
         self.transport.connect()
         poll_thread = threading.Thread(target=self._poll_queue)
+        self._poll_thread = poll_thread
         poll_thread.start()
 
     def _poll_queue(self):
         """Poll the queue for work."""
         while not self._stop_event.is_set():
-            reply = self.run_job()
+            self._follow_up_jobs = []
+            try:
+                reply = self.run_job()
+            finally:
+                follow_up_jobs, self._follow_up_jobs = self._follow_up_jobs, None
+                self.queue.extendleft(reversed(follow_up_jobs))
             self.transport.send(reply)
             if self.queue:
                 continue
